@@ -56,7 +56,7 @@ func genOutcomes(t *rapid.T, nodes int, cfg SGenCfg, slowLeft *faultBudget) []Ou
 			o = DISKERR // (for a write: the replica's own disk write fails; otherwise like ERR)
 		}
 		if cfg.SlowFaults && slowLeft.slow > 0 && rapid.IntRange(0, 3).Draw(t, "slow") == 0 {
-			o = rapid.SampledFrom([]Outcome{STALL, DROP}).Draw(t, "slowkind")
+			o = rapid.SampledFrom([]Outcome{STALL, DROP, SLOW}).Draw(t, "slowkind")
 			slowLeft.slow--
 		} else if cfg.SlowFaults && slowLeft.drop > 0 && rapid.IntRange(0, 4).Draw(t, "drop") == 0 {
 			// the connection breaks while the request is in flight: no reply at all
